@@ -596,8 +596,32 @@ def run(ctx):
 
     _RW = re.compile(r"(token_type_exists|does_token_type_exist_in_list_of_tokens|count_token_types_in_list_of_tokens)\(.*comment")
 
-    def _neg_region_test(guards):
-        return any(g.endswith(" is False") and _RW.search(g) for g in guards)
+    def _is_region_test(text, mod, depth=0):
+        if _RW.search(text):
+            return True
+        # a predicate helper that returns such a test (one or two levels)
+        try:
+            e = ast.parse(text, mode="eval").body
+        except SyntaxError:
+            return False
+        if isinstance(e, ast.Call) and isinstance(e.func, (ast.Name, ast.Attribute)) and depth < 2 and mod is not None:
+            ent = p.resolve_expr(mod, e.func)
+            if ent and ent[0] == "func":
+                rets = [x.value for x in walk_function(ent[1].node) if isinstance(x, ast.Return) and x.value is not None]
+                consts = [x for x in rets if isinstance(x, ast.Constant)]
+                tests = [x for x in rets if not isinstance(x, ast.Constant)]
+                if tests and all(_is_region_test(norm(x), ent[1].module, depth + 1) for x in tests) and all(c.value is False for c in consts):
+                    return True
+                # `if <test>: return True ... return False`
+                if not tests and consts:
+                    f2 = Facts(ent[1].node)
+                    trues = [x for x in walk_function(ent[1].node) if isinstance(x, ast.Return) and isinstance(x.value, ast.Constant) and x.value.value is True]
+                    if trues and all(any(pol is True and _is_region_test(t, ent[1].module, depth + 1) for t, pol in f2.conds_at(x)) for x in trues):
+                        return True
+        return False
+
+    def _neg_region_test(guards, mod=None):
+        return any(g.endswith(" is False") and _is_region_test(g[: -len(" is False")], mod) for g in guards)
 
     def fam_unguarded(fam, literals):
         """For a whole-region replacement that is safe only because regions holding a comment never reach it: the places
@@ -611,7 +635,7 @@ def run(ctx):
             keeps = []
             for n in walk_function(t.node):
                 if isinstance(n, ast.Call) and isinstance(n.func, ast.Attribute) and n.func.attr == "append":
-                    keeps.append(_neg_region_test(_canon_guards(tf, n, t)))
+                    keeps.append(_neg_region_test(_canon_guards(tf, n, t), t.module))
                 if isinstance(n, ast.Return) and isinstance(n.value, ast.ListComp):
                     conds = [c for g in n.value.generators for c in g.ifs]
                     keeps.append(any(isinstance(c, ast.UnaryOp) and isinstance(c.op, ast.Not) and _RW.search(norm(c.operand)) for c in conds))
@@ -639,7 +663,7 @@ def run(ctx):
                 n_sinks += 1
                 if gf is None:
                     gf = Facts(g.node)
-                if not _neg_region_test(_canon_guards(gf, n, g)):
+                if not _neg_region_test(_canon_guards(gf, n, g), g.module):
                     out.append((g, n))
         if not n_sinks:
             return [(p.functions[fk], p.functions[fk].node)]
